@@ -72,6 +72,15 @@ func runC26(rc *RunCtx, i int) {
 	spec.FPR = p
 	spec.Part = gen.PartFunc{Name: "none"}
 	spec.Partition = "none"
+	// a third of the cases flush several partitions at once, each holding the same number of
+	// distinct tokens (blocks whose filters share one shape; the file filter must still be
+	// sized for the union)
+	parts := 1
+	if i%3 == 2 {
+		parts = core.Pick(r, []int{2, 4, 8})
+		spec.Part = gen.PartFunc{Name: fmt.Sprintf("byKey:p(%d)", parts), Fn: func(row map[string]any) string { s, _ := row["p"].(string); return s }}
+		spec.Partition = spec.Part.Name
+	}
 	spec.MinMax = nil
 	spec.Compression = "snappy"
 	blocksWanted := core.Pick(r, []int{1, 1, 2, 4})
@@ -93,6 +102,14 @@ func runC26(rc *RunCtx, i int) {
 		if share == 0 {
 			continue
 		}
+		if parts > 1 {
+			// equal shares: whole rows of perRow tokens, a multiple of the partition count
+			rowsN := share / perRow / parts * parts
+			if rowsN < parts {
+				rowsN = parts
+			}
+			share = rowsN * perRow
+		}
 		var recs []*world.RowRec
 		for share > 0 {
 			k := perRow
@@ -107,6 +124,9 @@ func runC26(rc *RunCtx, i int) {
 			share -= k
 			vid++
 			row := map[string]any{"_vid": fmt.Sprintf("v%s_%d", caseID, vid), "t": sb.String()}
+			if parts > 1 {
+				row["p"] = fmt.Sprintf("part%d", vid%parts)
+			}
 			rec, err := w.Register(row, 0)
 			if err != nil {
 				rc.Violate(i, "scenario-failed", "", err.Error(), nil)
@@ -135,7 +155,7 @@ func runC26(rc *RunCtx, i int) {
 		rc.Violate(i, "scenario-failed", "", err.Error(), nil)
 		return
 	}
-	desc := map[string]any{"case": caseID, "configured_rate": p, "distinct_tokens_ingested": n, "flushes": blocksWanted, "merged": merged}
+	desc := map[string]any{"case": caseID, "configured_rate": p, "distinct_tokens_ingested": n, "flushes": blocksWanted, "merged": merged, "partitions_per_flush": parts}
 	probeOne := func(level, kind string, f *bloom.BloomFilter, entries int, rate float64) bool {
 		if f == nil {
 			rc.Violate(i, "filter-absent", "", level+" "+kind+" filter absent", desc)
